@@ -20,9 +20,12 @@ out = ["# Seeded defects (written by fresh sub-agents from the property text onl
        "Each change was confirmed by `tools/seeded.py verify` in a scratch worktree (compiles, repository tests pass with it,",
        "its demonstration fails with and passes without it) and then applied to /repo (`git apply`), the quick tier of the",
        "checks was run, and the tree was restored (`git checkout -- .`).", "",
-       "Round 1 = variants a, b; round 2 = variants c, d (asked to be hard to hit: sizes, boundaries, coincidences). For round 2 the",
-       "column 'before' is the outcome with the harness as it was before the generator improvements of DESIGN.md §11.5.", "",
-       "| seed | confirmed | caught by (quick tier) | before §11.5 | first failing sub-check / reason |", "|---|---|---|---|---|"]
+       "(rounds 3 and 4 were run in a private copy of /repo and /verif, `tools/seeded.py run-scratch`, because background runs were using /repo).", "",
+       "Round 1 = variants a, b; round 2 = c, d (asked to be hard to hit: sizes, boundaries, coincidences); round 3 = e, f (cooperating sites,",
+       "multi-step sequences, less-travelled API paths); round 4 = g, h (feature interactions, alternate entry points, edge classification,",
+       "order/aliasing). The column 'before' is the outcome with the harness as it stood when that round's seeds were written, i.e. the",
+       "independent number; 'caught by' is the outcome with the current harness (after the improvements the misses led to: DESIGN.md §11.5, §11.7, §11.8).", "",
+       "| seed | confirmed | caught by (quick tier, current harness) | before | first failing sub-check / reason |", "|---|---|---|---|---|"]
 caught = 0
 for name, m, notes in rows:
     cb = m.get("caught_by", [])
@@ -35,6 +38,16 @@ for name, m, notes in rows:
     if "checks_before" in m:
         before = ", ".join(m.get("caught_by_before", [])) or "missed"
     out.append(f"| {name} | {'yes' if m.get('confirmed') else 'NO'} | {', '.join(cb) if cb else '**missed**' if 'checks' in m else 'not run'} | {before} | {reason} |")
-out += ["", f"{caught} of {len(rows)} seeded changes are caught by the quick tier of at least one check.", ""]
+out += ["", f"{caught} of {len(rows)} seeded changes are caught by the quick tier of at least one check (current harness).", ""]
+for rnd, vs in ((1, "ab"), (2, "cd"), (3, "ef"), (4, "gh")):
+    rr = [(n, m) for n, m, _ in rows if n[-1] in vs]
+    own_now = sum(1 for n, m in rr if n[:3] in m.get("caught_by", []))
+    any_now = sum(1 for n, m in rr if m.get("caught_by"))
+    if rnd == 1:
+        out.append(f"Round {rnd}: {len(rr)} seeds; caught at the first attempt by the owning check: {own_now} (no 'before' column: the harness was not changed for them, except C05-b, see DESIGN.md §11.4).")
+    else:
+        own_before = sum(1 for n, m in rr if n[:3] in m.get("caught_by_before", []))
+        out.append(f"Round {rnd}: {len(rr)} seeds; before: {own_before} caught by the owning check; now: {own_now} by the owning check, {any_now} by some check.")
+out.append("")
 open("/verif/seeded/RESULTS.md", "w").write("\n".join(out))
 print(f"{caught}/{len(rows)} caught")
